@@ -441,7 +441,7 @@ def g_geg_nearpole(long_):
 
 # a = -m/2 +- 2^-k: representable in p bits (k <= p-4) / much longer than the working precision (k >= p+40)
 reg("gegenbauer_nearpole", "gegenbauer", lambda c, n, a, x: c.gegenbauer(n, M(c, a), M(c, x)), q_gegenbauer, g_geg_nearpole(False),
-    w=0.6, regime="polynomial-near-pole-parameter", exact=True)
+    w=0.6, regime="polynomial-near-pole-parameter", exact=True, maxprec=1000)
 reg("gegenbauer_nearpole_long", "gegenbauer", lambda c, n, a, x: c.gegenbauer(n, M(c, a), M(c, x)), q_gegenbauer, g_geg_nearpole(True),
     w=0.3, regime="polynomial-near-pole-parameter-long", exact=True, maxprec=1000)
 reg("jacobi_negint_a", "jacobi", lambda c, n, a, b, x: c.jacobi(n, a, Mq(c, b), M(c, x)), q_jacobi,
